@@ -22,6 +22,12 @@ func TestSweep(t *testing.T) {
 	if env.Thorough() {
 		shapes = append(shapes, [2]int{3, 0}, [2]int{5, 1000}, [2]int{1, 4096}, [2]int{4, 2}, [2]int{8, 4096}, [2]int{3, 341})
 	}
+	// the largest shape of the property's domain (8 channels x 4096 frames = 2^15 samples) for every conversion
+	if !env.Thorough() {
+		for _, e := range convtab.Entries {
+			Oracle.One(t, env, rec, "sweep", &Case{Op: "conv", T: e.S.Name, U: e.D.Name, C: 8, F: 4096})
+		}
+	}
 	for _, sh := range shapes {
 		for _, win := range []bool{false, true} {
 			for _, e := range convtab.Entries {
